@@ -111,6 +111,27 @@ Qed.
 Lemma freeT_kind r : In r (@freeT_rows F OF oc pt) -> rw_kind r = KFreeT.
 Proof. unfold freeT_rows. intro H. in_cases; reflexivity. Qed.
 
+Lemma rows_ms_kinds r :
+  In r (rows_ms oc pt) ->
+  rw_kind r = KDyn \/ rw_kind r = KGrid \/ rw_kind r = KPath \/ rw_kind r = KPoint \/ rw_kind r = KFreeT.
+Proof.
+  unfold rows_ms. intro H.
+  apply in_app_or in H. destruct H as [H|H].
+  { right; left. eapply finalize_kind; exact H. }
+  apply in_app_or in H. destruct H as [H|H].
+  { apply in_flat_map in H. destruct H as (k & _ & H).
+    apply in_app_or in H. destruct H as [H|H].
+    { left. apply dyn_rows_in in H. destruct H as (i & _ & ->). reflexivity. }
+    apply in_app_or in H. destruct H as [H|H].
+    { right; left. eapply bounds_T_kind; exact H. }
+    right; right; left. eapply path_rows_kind; exact H. }
+  apply in_app_or in H. destruct H as [H|H].
+  { right; right; left. eapply last_rows_kind; exact H. }
+  apply in_app_or in H. destruct H as [H|H].
+  { right; right; right; left. apply in_map_iff in H. destruct H as (c & <- & _). reflexivity. }
+  right; right; right; right. eapply freeT_kind; exact H.
+Qed.
+
 (* ---- the rows of kind dyn of the MultipleShooting NLP, exactly *)
 Theorem ms_dyn_rows_spec r :
   (In r (rows_ms oc pt) /\ rw_kind r = KDyn) <->
